@@ -20,7 +20,11 @@ RULE = ("(TLE, time, observer) triples: observers uniform over the globe, at the
         "both functions with array-valued observers (float64, float32, integer-typed whole-degree grids, 2-d); both functions with the "
         "time given in every representation of one instant (naive UTC, UTC-aware, offset-aware, datetime64[ns|us|ms|s]; process in "
         "UTC and non-UTC local zones) judged at the true instant; datetime64[ns] scalars and arrays with non-zero sub-microsecond "
-        "digits judged at the instant given by the exact integer nanoseconds, observers near the sub-satellite point; correspondence: "
+        "digits judged at the instant given by the exact integer nanoseconds, observers near the sub-satellite point; both functions "
+        "with a time SERIES spanning 1, 3, 10, 30 days in one call (sorted, reversed, shuffled, first element in the middle) and with "
+        "arguments of different shapes that numpy broadcasts (lat (S,1) x lon (1,L), stations (S,1) x times (T,), times (T,1) x "
+        "stations (S,), altitude along the leading axis only, 3-d, random axes): the answer has the broadcast shape and every element "
+        "is judged at its own instant and observer; correspondence: "
         "azimuth/elevation and the south/east/zenith components model vs both implementations at 1e-9; oracle: independent "
         "WGS-84 east-north-up frame within 1e-4 deg (azimuth weighted by cos elevation) for the method and for the module-level "
         "function (satellite at the lon/lat/alt it is given), finiteness everywhere, method vs "
@@ -318,6 +322,193 @@ def ns_stamp_probe(ctx, a, b, o, t):
         check_ns_stamps(ctx, a, b, stamps, "ns_array", lon, lat, alt, o)
 
 
+# ---------------------------------------------------------------- time series and broadcast layouts in ONE call
+def _shaped(vals, shape):
+    """The flat values as a float64 scalar (shape []) or an array of the given shape."""
+    return np.float64(vals[0]) if not shape else np.array(vals, dtype=np.float64).reshape(shape)
+
+
+def _index_map(n, shape, bshape):
+    """For every index of the broadcast shape, the flat index into an argument of n values laid out with `shape`."""
+    return np.broadcast_to(np.arange(n).reshape(shape if shape else ()), bshape)
+
+
+def check_layout(ctx, spec, o=None):
+    """ONE call of each look function with the arguments laid out as numpy broadcasting allows: spec holds, for the time, the
+    observer's lon, lat, alt (and `sat`: 'fixed' = one satellite point, 'track' = the sub-satellite point of every instant,
+    shaped like the time argument), the flat values and the shape of each ([] = scalar).  The answer must have the numpy
+    broadcast shape of the arguments, and every element is judged at ITS OWN instant and observer against the independent
+    east-north-up frame (satellite position / sub-satellite point of that instant from a scalar query), with the statement's
+    1e-4 deg - whatever the other elements of the call are (long series, unsorted series, leading-axis variation)."""
+    from pyorbital import orbital
+    a, b = spec["line1"], spec["line2"]
+    o = o or orbital.Orbital("x", line1=a, line2=b)
+    n0 = len(ctx.violations)
+    ts = [dt.datetime.fromisoformat(x) for x in spec["utcs"]]
+    tsh = [int(x) for x in spec["t_shape"]]
+    shapes = {k: [int(x) for x in spec[k + "_shape"]] for k in ("lon", "lat", "alt")}
+    if tsh:
+        tval = np.array([np.datetime64(t, "us") for t in ts], dtype="datetime64[us]").reshape(tsh)
+    else:
+        tval = ts[0]
+    vals = {k: _shaped(spec[k + "s"], shapes[k]) for k in ("lon", "lat", "alt")}
+    bshape = np.broadcast_shapes(tuple(tsh), *[tuple(shapes[k]) for k in ("lon", "lat", "alt")])
+    ti = _index_map(len(ts), tsh, bshape)
+    oi = {k: _index_map(len(spec[k + "s"]), shapes[k], bshape) for k in ("lon", "lat", "alt")}
+    th = [geo.gmst_ref(t) for t in ts]
+    pk = [o.get_position(t, normalize=False)[0] for t in ts]
+    if spec["sat"] == "track":
+        sats = [[float(x) for x in o.get_lonlatalt(t)] for t in ts]
+    else:
+        sats = [[float(x) for x in spec["sat_point"]]] * len(ts)
+    sat_eci = [geo.geodetic_to_eci(s[0], s[1], s[2], g) for s, g in zip(sats, th)]
+    case = dict(spec, fn="layout")
+    for site in ("Orbital.get_observer_look", "orbital.get_observer_look"):
+        try:
+            with warnings.catch_warnings():
+                warnings.simplefilter("ignore")
+                if site.startswith("Orbital"):
+                    az, el = o.get_observer_look(tval, vals["lon"], vals["lat"], vals["alt"])
+                else:
+                    if spec["sat"] == "track" and tsh:
+                        sargs = [np.array([s[i] for s in sats], dtype=np.float64).reshape(tsh) for i in range(3)]
+                    else:
+                        sargs = [np.float64(sats[0][i]) for i in range(3)]
+                    az, el = orbital.get_observer_look(sargs[0], sargs[1], sargs[2], tval, vals["lon"], vals["lat"], vals["alt"])
+            az, el = np.asarray(az, dtype=np.float64), np.asarray(el, dtype=np.float64)
+        except Exception as e:  # noqa
+            ctx.violation("layout_rejected", dict(case, site=site), "%s: %s" % (type(e).__name__, e),
+                          "azimuth and elevation arrays of shape %s" % (list(bshape),), site=site)
+            continue
+        if az.shape != tuple(bshape) or el.shape != tuple(bshape):
+            ctx.violation("broadcast_shape", dict(case, site=site), [list(az.shape), list(el.shape)],
+                          "the numpy broadcast shape %s of the arguments" % (list(bshape),), site=site)
+            continue
+        for idx in np.ndindex(*bshape):
+            ctx.count("eval_oracle_layout")
+            j = int(ti[idx])
+            lon, lat, alt = [float(spec[k + "s"][int(oi[k][idx])]) for k in ("lon", "lat", "alt")]
+            src = pk[j] if site.startswith("Orbital") else sat_eci[j]
+            ref_az, ref_el = geo.look_ref(src, lon, lat, alt, th[j])
+            if not judge(ctx, dict(case, site=site, index=list(idx), instant=ts[j].isoformat(), observer=[lon, lat, alt]),
+                         float(az[idx]), float(el[idx]), ref_az, ref_el, site):
+                break           # one failing element per call and site is enough
+    return len(ctx.violations) - n0
+
+
+SERIES_SPANS_D = [1.0, 3.0, 10.0, 30.0]
+
+
+def _series_spec(ctx, a, b, o):
+    """A time series spanning 1, 3, 10 or 30 days handed over in one call (sorted, reversed, shuffled, first element in the
+    middle), one observer: near the sub-satellite point of one of the instants (short slant range: the direction is most
+    sensitive to the observer's sidereal angle) or anywhere."""
+    r = ctx.rng
+    span = r.choice(SERIES_SPANS_D) * 86400.0
+    k = r.choice([2, 3, 4, 6, 9, 14])
+    t0 = orbits.rand_time(ctx, o) - dt.timedelta(seconds=r.choice([0.0, 0.0, 0.5, 1.0]) * span)
+    offs = [span * i / (k - 1) for i in range(k)] if r.random() < 0.4 else [0.0] + sorted(r.uniform(0, span) for _ in range(k - 2)) + [span]
+    order = r.choice(["sorted", "sorted", "reversed", "shuffled", "middle_first"])
+    if order == "reversed":
+        offs = offs[::-1]
+    elif order == "shuffled":
+        r.shuffle(offs)
+    elif order == "middle_first":
+        offs = offs[len(offs) // 2:] + offs[:len(offs) // 2]
+    ts = [(t0 + dt.timedelta(seconds=x)).replace(microsecond=0) + dt.timedelta(microseconds=r.choice([0, r.randrange(10 ** 6)]))
+          for x in offs]
+    if not all(orbits.answers(o, t) for t in ts):
+        return None
+    if r.random() < 0.7:
+        slon, slat, _ = [float(x) for x in o.get_lonlatalt(r.choice(ts))]
+        w = r.choice([0.5, 3.0, 10.0])
+        lon, lat = slon + r.uniform(-w, w), max(-90.0, min(90.0, slat + r.uniform(-w, w)))
+    else:
+        lon, lat = r.uniform(-180, 180), r.uniform(-90, 90)
+    ctx.bump("series_span", "%gd/%s" % (span / 86400.0, order))
+    return {"line1": a, "line2": b, "family": "series", "utcs": [t.isoformat() for t in ts], "t_shape": [k],
+            "lons": [lon], "lon_shape": [], "lats": [lat], "lat_shape": [], "alts": [r.uniform(-0.5, 3.0)], "alt_shape": [],
+            "sat": r.choice(["track", "track", "fixed"]), "sat_point": [r.uniform(-180, 180), r.uniform(-60, 60), r.choice([35786.0, r.uniform(300, 2000)])]}
+
+
+LAYOUTS = ["lat(S,1) x lon(1,L)", "lon(L,1) x lat(1,S)", "stations(S,1) x times(T,)", "times(T,1) x stations(S,)",
+           "alt(A,1) x times(T,)", "alt(A,1) x lon(L,)", "lat,alt(S,1) x lon(L,)", "3-d", "3-d", "random axes"]
+
+
+def _layout_spec(ctx, a, b, o):
+    """Arguments of different shapes that numpy broadcasts against each other (a lat x lon grid written lat[:, None], lon[None, :];
+    stations against a time series; altitude levels against anything), incl. variation along a LEADING axis only and 3-d."""
+    r = ctx.rng
+    name = r.choice(LAYOUTS)
+    S, L, T, A = r.randint(2, 4), r.randint(2, 5), r.randint(2, 5), r.randint(2, 3)
+    sh = {"t": [], "lon": [], "lat": [], "alt": []}
+    if name == "lat(S,1) x lon(1,L)":
+        sh.update(lat=[S, 1], lon=r.choice([[1, L], [L]]), alt=r.choice([[], [S, 1]]))
+    elif name == "lon(L,1) x lat(1,S)":
+        sh.update(lon=[L, 1], lat=r.choice([[1, S], [S]]), alt=r.choice([[], [S]]))
+    elif name == "stations(S,1) x times(T,)":
+        sh.update(t=[T], lon=[S, 1], lat=[S, 1], alt=r.choice([[S, 1], []]))
+    elif name == "times(T,1) x stations(S,)":
+        sh.update(t=[T, 1], lon=[S], lat=[S], alt=r.choice([[S], []]))
+    elif name == "alt(A,1) x times(T,)":
+        sh.update(t=[T], alt=[A, 1])
+    elif name == "alt(A,1) x lon(L,)":
+        sh.update(lon=[L], alt=[A, 1], lat=r.choice([[], [L]]))
+    elif name == "lat,alt(S,1) x lon(L,)":
+        sh.update(lon=[L], lat=[S, 1], alt=[S, 1], t=r.choice([[], [L]]))
+    elif name == "3-d":
+        # each of time, lon, lat/alt on its own axis, in a random axis order
+        ax = [0, 1, 2]
+        r.shuffle(ax)
+        size = {ax[0]: T, ax[1]: L, ax[2]: S}
+
+        def on(axis):
+            s = [1, 1, 1]
+            s[axis] = size[axis]
+            while len(s) > 1 and s[0] == 1 and r.random() < 0.5:
+                s = s[1:]
+            return s
+        sh.update(t=on(ax[0]), lon=on(ax[1]), lat=on(ax[2]), alt=r.choice([[], on(ax[2]), on(ax[1])]))
+    else:
+        nd = r.choice([2, 3])
+        size = [r.randint(2, 4) for _ in range(nd)]
+        for key in sh:
+            axes = [i for i in range(nd) if r.random() < 0.45]
+            s = [size[i] if i in axes else 1 for i in range(nd)]
+            while s and s[0] == 1:
+                s = s[1:]
+            sh[key] = s
+    nt = int(np.prod(sh["t"])) if sh["t"] else 1
+    t0 = orbits.rand_time(ctx, o)
+    step = r.choice([1.0, 30.0, 90.0, 600.0, 5400.0, 86400.0])
+    ts = [t0 + dt.timedelta(seconds=step * i + r.choice([0.0, r.uniform(0, step)])) for i in range(nt)]
+    if r.random() < 0.3:
+        r.shuffle(ts)
+    if not all(orbits.answers(o, t) for t in ts):
+        return None
+    slon, slat, _ = [float(x) for x in o.get_lonlatalt(ts[0])]
+
+    def flat(key, gen_):
+        return [gen_() for _ in range(int(np.prod(sh[key])) if sh[key] else 1)]
+    wide = r.random() < 0.5
+    lons = flat("lon", lambda: r.uniform(-180, 180) if wide else slon + r.uniform(-25, 25))
+    lats = flat("lat", lambda: r.uniform(-90, 90) if wide else max(-90.0, min(90.0, slat + r.uniform(-25, 25))))
+    alts = flat("alt", lambda: r.uniform(-0.5, 9.0))
+    ctx.bump("layout", name)
+    return {"line1": a, "line2": b, "family": name, "utcs": [t.isoformat() for t in ts], "t_shape": sh["t"],
+            "lons": lons, "lon_shape": sh["lon"], "lats": lats, "lat_shape": sh["lat"], "alts": alts, "alt_shape": sh["alt"],
+            "sat": r.choice(["track", "fixed"]), "sat_point": [r.uniform(-180, 180), r.uniform(-60, 60), r.choice([35786.0, r.uniform(300, 2000)])]}
+
+
+def layout_probe(ctx, a, b, o):
+    for mk, n in ((_series_spec, ctx.size(4, 8)), (_layout_spec, ctx.size(5, 10))):
+        for _ in range(n):
+            spec = mk(ctx, a, b, o)
+            if spec is not None:
+                ctx.distinct((a, "layout", spec["family"], spec["utcs"][0]))
+                check_layout(ctx, spec, o)
+
+
 def oracle(ctx):
     from pyorbital import orbital
     n = ctx.size(25, 300)
@@ -386,6 +577,11 @@ def oracle(ctx):
                                     [float(np.float32(x)) for x in alts])
             ctx.bump("method_array_kind", kind)
             check_method_array(ctx, a, b, t, lons, lats, alts, kind, o)
+    # one call for a whole time series (1 - 30 days, sorted and unsorted) and for arguments of different shapes that numpy
+    # broadcasts (lat (S,1) x lon (1,L), stations x times, altitude along the leading axis only, 3-d): every element judged
+    # at its own instant and observer
+    for (a, b, o) in orbits.make_orbitals(ctx, ctx.size(25, 300)):
+        layout_probe(ctx, a, b, o)
     ctx.note("worst method-vs-module difference = %.3g deg" % worst)
 
 
@@ -404,6 +600,12 @@ def replay(ctx, case):
         n = check_method_array(ctx, inp["line1"], inp["line2"], dt.datetime.fromisoformat(inp["utc"]), inp["lons"], inp["lats"],
                                inp["alts"], inp["kind"])
         print("method-array case", inp, "violations", n)
+        return 1 if n else 0
+    if inp.get("fn") == "layout":
+        n = check_layout(ctx, inp)
+        for v in ctx.violations[-n:] if n else []:
+            print("layout", inp.get("family"), "shapes t/lon/lat/alt", inp["t_shape"], inp["lon_shape"], inp["lat_shape"], inp["alt_shape"],
+                  v["site"], v["kind"], "element", v["case"].get("index"), v["observed"], "required", v["required"])
         return 1 if n else 0
     if "line1" not in inp:
         print(inp)
